@@ -427,3 +427,64 @@ func idxInRange(fi *FnInfo, in ssa.Instruction, x, idx ssa.Value) bool {
 	}
 	return nonNegAt(fi, g, idx) && ltLenAt(fi, g, idx, x, map[ssa.Value]bool{})
 }
+
+// earlierAccessProves: an access of the same SSA value x that dominates `at` and cannot have succeeded unless
+// len(x) >= need — `x[j]` with a constant j >= need-1, `x[l:]`/`x[:h]`/`x[l:h]` with a constant bound >= need. Had the
+// earlier access been out of range it would have panicked there (and is an obligation of its own), so at `at` the length
+// is known: `first := chain[0]; for _, c := range chain[1:]` needs no second guard. x is one SSA value (a slice or string
+// header is immutable as a value), so the length cannot have changed in between.
+func earlierAccessProves(x ssa.Value, need int64, at ssa.Instruction) bool {
+	if need <= 0 {
+		return true
+	}
+	refs := x.Referrers()
+	if refs == nil {
+		return false
+	}
+	dominates := func(a ssa.Instruction) bool {
+		if a == at || a.Block() == nil || at.Block() == nil {
+			return false
+		}
+		if a.Block() == at.Block() {
+			for _, in := range a.Block().Instrs {
+				if in == a {
+					return true
+				}
+				if in == at {
+					return false
+				}
+			}
+			return false
+		}
+		return a.Block().Dominates(at.Block())
+	}
+	constOf := func(v ssa.Value) (int64, bool) {
+		if v == nil {
+			return 0, false
+		}
+		return parseConstInt(desc(v))
+	}
+	for _, r := range *refs {
+		switch a := r.(type) {
+		case *ssa.IndexAddr:
+			if j, ok := constOf(a.Index); ok && a.X == x && j+1 >= need && dominates(a) {
+				return true
+			}
+		case *ssa.Index:
+			if j, ok := constOf(a.Index); ok && a.X == x && j+1 >= need && dominates(a) {
+				return true
+			}
+		case *ssa.Slice:
+			if a.X != x {
+				continue
+			}
+			if l, ok := constOf(a.Low); ok && l >= need && dominates(a) {
+				return true
+			}
+			if h, ok := constOf(a.High); ok && h >= need && dominates(a) {
+				return true
+			}
+		}
+	}
+	return false
+}
